@@ -1,9 +1,10 @@
 (* C20 — optimising a universal generator set keeps the algebra and the set size.
    Proved for every n: any sequence of the loop's moves (each replaces a generator x by x.y for an entry (x, y) of
    list_connections) leaves the commutator closure and the number of generators unchanged, whatever the choices
-   (greedy score or random); and they keep an independent list (the optimiser starts from get_independents())
-   independent, so the output strings are pairwise distinct and none is the identity.  Termination of the retry loop
-   is NOT a consequence of this and is explored per run with a watchdog (partial). *)
+   (greedy score or random); and they keep an F2-independent list independent (then the strings stay pairwise distinct).
+   NOTE the limit of the second theorem: a list that generates su(2^n) has at least 2n+1 members and is therefore
+   never F2-independent, so for the inputs of this property distinctness of the output is NOT a consequence of it;
+   distinctness, the bound 2n+1 and termination of the retry loop are explored per run with a watchdog (partial). *)
 From PauLie Require Import Pauli Sym ClSym Optimise OptimiseT GraphDetT IndepT.
 
 Theorem C20_contractions_preserve : forall choices l,
